@@ -173,7 +173,7 @@ bitfieldwidth(struct expr *e)
 static struct expr *
 exprconvert(struct expr *e, struct type *t)
 {
-	if (typecompatible(e->type, t))
+	if (e->type == t && e->kind != EXPRBITFIELD)
 		return e;
 	return mkexpr(EXPRCAST, t, e);
 }
